@@ -286,6 +286,60 @@ class FV:
         """[(return node, resolved value term)]"""
         return [(n, self.res.resolve(n.ast.value, n.id)) for n in self.return_nodes()]
 
+    def alternatives(self, expr: ast.AST, at: int, depth: int = 0) -> List[Tuple[List[Tuple[ast.AST, bool]], ast.AST]]:
+        """The values an expression can take together with the conditions under which it takes them:
+        [(conditions [(canonical atom, polarity)], resolved value term)].
+        Splits local names by their reaching definitions (conditions = atoms that hold at the definition), conditional
+        expressions by their test, and calls to new helper functions by the helper's return statements."""
+        if depth > 5:
+            return [([], self.res.resolve(expr, at))]
+        if isinstance(expr, ast.IfExp):
+            rt = self.res.resolve(expr.test, at)
+            out = []
+            for branch, pol in ((expr.body, True), (expr.orelse, False)):
+                atom = canonical_atom(rt, pol)
+                for conds, val in self.alternatives(branch, at, depth + 1):
+                    out.append(([atom] + conds, val))
+            return out
+        if isinstance(expr, ast.Name):
+            defs = sorted(self.cfg.reaching()[at].get(expr.id, ()))
+            simple = [d for d in defs if self.cfg.nodes[d].kind == "stmt" and isinstance(self.cfg.nodes[d].ast, ast.Assign)
+                      and len(self.cfg.nodes[d].ast.targets) == 1 and isinstance(self.cfg.nodes[d].ast.targets[0], ast.Name)]
+            if defs and len(simple) == len(defs) and (len(defs) > 1 or isinstance(self.cfg.nodes[defs[0]].ast.value, (ast.IfExp, ast.Call, ast.Name))):
+                out = []
+                for d in defs:
+                    here = [(r, p) for r, p, br in self.atoms_at(d)]
+                    for conds, val in self.alternatives(self.cfg.nodes[d].ast.value, d, depth + 1):
+                        out.append((here + conds, val))
+                return out
+            return [([], self.res.resolve(expr, at))]
+        if isinstance(expr, ast.Call):
+            hv = self._helper_view(expr)
+            if hv is not None:
+                g, conc = hv
+                reg = self.registry
+                reg._inline_depth = getattr(reg, "_inline_depth", 0) + 1
+                try:
+                    gv = reg.fv(g, conc)
+                    saved = self.res.inliner
+                    self.res.inliner = None
+                    try:
+                        rc = self.res.resolve(expr, at)
+                    finally:
+                        self.res.inliner = saved
+                    mapping = self._bind_terms(g, rc) if isinstance(rc, ast.Call) else None
+                    if mapping is not None:
+                        out = []
+                        for rn in gv.return_nodes():
+                            here = [(self._substitute(r, mapping, g.short), p) for r, p, br in gv.atoms_at(rn.id)]
+                            for conds, val in gv.alternatives(rn.ast.value, rn.id, depth + 1):
+                                out.append((here + [(self._substitute(c, mapping, g.short), p) for c, p in conds], self._substitute(val, mapping, g.short)))
+                        if out:
+                            return out
+                finally:
+                    reg._inline_depth -= 1
+        return [([], self.res.resolve(expr, at))]
+
     def template_arms(self, expr: ast.AST, at: int, depth: int = 0) -> Optional[List[Tuple[ast.AST, int]]]:
         """The string templates an expression can denote: [(JoinedStr | str Constant, node where it is written)].
         Follows local names through all their reaching definitions and conditional expressions; None if some
